@@ -53,7 +53,9 @@ Fragment 𝔽₂ (function bodies with statements, `Model/CSem2.lean`, `Model/Lo
            | (break) | (continue)
     In EXPR, (p TY K) names VARIABLE K: parameters 0 … n-1, then the locals in declaration order.
 `eval` on such a line runs `CSem2.runC` with the fuel given by `--cfuel N` (default 100000; `c=ub` also
-when that fuel is exhausted) and the IL of `Lower2.emitFunc`.
+when that fuel is exhausted) and the IL of `Lower2.emitFunc`; `wt=0` is also printed when a statement
+follows `return`/`break`/`continue` in the same block (unreachable code: outside the model, see
+Model/Lower2.lean).
 -/
 
 open CprocVerif CprocVerif.CSem CprocVerif.Lower CprocVerif.CInt
